@@ -37,7 +37,7 @@ def case_variant_down(attr):
 
 
 def make_axis(rng, name, dim, *, nk=None, down=None, attr='auto', deep_first=None, bounds=None, ident=None,
-              style=None, offset=None, dtype='float64', max_levels=6):
+              style=None, offset=None, dtype='float64', max_levels=6, bounds_p=0.35):
     """One monotonic depth coordinate.
 
     attr: 'auto' -> a spelling of the true direction (mostly lower case); None -> attribute absent (values then
@@ -86,7 +86,7 @@ def make_axis(rng, name, dim, *, nk=None, down=None, attr='auto', deep_first=Non
         axis['attrs']['long_name'] = 'layer depth of %s' % name
     if name == dim:
         axis['style'] = 'coord'
-    bounds = chance(rng, 0.35) if bounds is None else bounds
+    bounds = chance(rng, bounds_p) if bounds is None else bounds
     if bounds:
         width = steps.min() if not dtype.startswith('int') else 1.0
         top = phys - numpy.round(rng.uniform(0.05, 0.45, size=nk) * width, 4)
